@@ -315,6 +315,36 @@ PROPS['C28'] = {
 
 
 # ---------------------------------------------------------------------------------------------------------------
+# orders builder: pool trades with limit orders (C13 order part, C14); modes `orders`, `orders-replay`
+import os as _os, glob as _glob
+_ORD_CORPUS = sorted(_glob.glob(_os.path.join(_os.path.dirname(_os.path.dirname(_os.path.abspath(__file__))), 'corpus', 'orders', '*.history')))
+# the minimal inputs of the repaired findings F-ORD-1 / F-ORD-2 (/repo fa48978) are replayed first: each must pass on the fixed tree
+ORD_REPLAYS = [{'mode': 'orders-replay', 'args': ['-trace', _f, '-driver', '{driver}', '-keep', '{keep}']} for _f in _ORD_CORPUS]
+ORD_MODE = {'mode': 'orders', 'args': ['-seed', '{seed}', '-n', '{n:2500:40000}', '-tier', '{tier}', '-driver', '{driver}', '-keep', '{keep}']}
+PROPS['C13']['modules'] = PROPS['C13']['modules'] + ['MinterProofs.Props.C13Orders']
+PROPS['C13']['theorems'] = PROPS['C13']['theorems'] + ['Minter.Lob.orderStep_K', 'Minter.Lob.curveStep_K', 'Minter.Lob.sellLoop_K', 'Minter.Lob.buyLoop_K',
+                                                       'Minter.Lob.sellWithOrders_K', 'Minter.Lob.buyWithOrders_K', 'Minter.Lob.settle_ok']
+PROPS['C13']['modes'] = PROPS['C13'].get('modes', []) + [ORD_MODE]
+PROPS['C14'] = {
+    'level': 'proof', 'registered': False,
+    'modules': ['MinterProofs.Props.C14'],
+    'theorems': ['Minter.Lob.ratInt_eq_ediv', 'Minter.Lob.partialSellAmount_eq', 'Minter.Lob.partialBuyAmounts_eq',
+                 'Minter.Lob.sell_fills', 'Minter.Lob.buy_fills', 'Minter.Lob.fill_at_own_price', 'Minter.Lob.partial_keeps_price',
+                 'Minter.Lob.sortBook_sorted', 'Minter.Lob.sortBook_perm', 'Minter.Lob.priority_sell', 'Minter.Lob.priority_buy',
+                 'Minter.Lob.Consumed.forall₂', 'Minter.Lob.Consumed.not_last_full', 'Minter.Lob.credits_exact',
+                 'Minter.Lob.dust_closed_refund', 'Minter.Lob.partial_stays', 'Minter.Lob.cancel_exact', 'Minter.Lob.cancel_owner_only',
+                 'Minter.Lob.cancel_once', 'Minter.Lob.cancel_returns_unfilled', 'Minter.Lob.expire_exact', 'Minter.Lob.expire_once'],
+    'campaigns': [camp('orders', 24, 200)],
+    'modes': ORD_REPLAYS + [ORD_MODE],
+    'assumptions': ['RN53 (the correctly rounded big.Float quotient behind the sort key) is differential-tested against the real CalcPriceSell and big.Rat.Float64, not proved against a real-number specification',
+                    'CalculateAddAmountsForPrice (amount0 of a curve step towards an order price) is an oracle: the theorems hold for every answer; the harness passes the real function\'s answers',
+                    'the RemoveLimitOrder handler\'s owner check is modelled by reading; the swap-level PairRemoveLimitOrder is tied; an order added in the current block cannot be cancelled before Commit (not in the model)',
+                    'reserves <= 0 and negative volumes are outside the model\'s domain (hypotheses of the theorems)'],
+    'claim_draft': "Lean theorems about the order-book model (MinterModel/Orders.lean, namespace Lob: abstract book = list of orders, none of the Go caches; sell/buy walk by structural recursion over the best-first list; every Go panic site a Fault value), for all books with positive volumes, reserves, amounts and oracle answers: the big.Float detour of a partial fill is exact, SetRat(n/d).Int() = floor(n/d), so all clamp branches and both 'negative' panics of the partial fill are dead code (ratInt_eq_ediv, partialSellAmount_eq, partialBuyAmounts_eq); every fill of a successful trade is a fill of a prefix of the best-first list, position by position, every fill but the last is complete (sell_fills, buy_fills, Consumed.forall₂, Consumed.not_last_full), the list is the whole book ordered by float53 price key then id (sortBook_perm, sortBook_sorted, priority_sell, priority_buy); an owner never pays more than his price up to < 1 unit of the coin he buys, and a partial fill keeps the remaining price within one unit (fill_at_own_price, partial_keeps_price); each owner is credited exactly the sum of his fills (credits_exact); a remainder below 10^10 on either side closes the order and refunds exactly the remainder, otherwise it stays with the reduced volumes (dust_closed_refund, partial_stays); cancel refunds exactly the current volume to the owner only, once, and after a partial fill returns the unfilled part; expiry removes exactly the orders that are old enough, once (cancel_exact, cancel_owner_only, cancel_once, cancel_returns_unfilled, expire_exact, expire_once). Tie: mode orders drives the real SwapV2 (PairSellWithOrders / PairBuyWithOrders / PairAddOrder / PairRemoveLimitOrder / ExpireOrders, commits and fresh instances in between, both sides of a pool, books of up to 12 000 orders in thorough) against the Lean walk (Q sellwo buywo cancelwo expirewo sortbook rn53 ratint) plus Go-side monitors (priority, conservation, dust, refunds, on-disk price key order); the minimal inputs of the repaired findings F-ORD-1 (cold order list: orders invisible after a cancel in the same block, duplicate ids, endless loop) and F-ORD-2 (partial-fill re-sort against a partly loaded list), /repo fa48978, are replayed first on every run (corpus/orders/*.history); node level: campaign orders. Partial: see assumptions (RN53 tested not proved; curve-step oracle; handler owner check by reading).",
+}
+
+
+# ---------------------------------------------------------------------------------------------------------------
 # What is claimed (MANIFEST.json is generated from this by tools/gen_manifest.py)
 CLAIMS = {
  'C01': "Lean theorems: every plan the model's DeliverTx can produce is built from value moves that are balanced by construction (Move.balanced, planOf_balanced), and checked application of a balanced plan preserves volume=holdings for every custom coin and the base-coin total up to recorded emission (balanced_preserves, C01_deliver_conserves, C01_block_body_conserves); for all states, transactions and oracle answers. Tie: model executed next to the real node on generated histories; monitors volumesOk/baseDeltaOk (the same Lean definitions) evaluated on the node's export at every commit.",
@@ -322,11 +352,11 @@ CLAIMS = {
  'C04': "Lean theorems C04_accept_in_order, C04_nonce_effect, C04_replay_rejected: accepted => nonce = stored+1 and chain id matches; any transaction whose nonce is not above the stored one is rejected by the prologue with no moves (state unchanged). Monitors on the node check the same on every delivered transaction incl. replays of earlier bytes.",
  'C05': "Lean theorems C05_balance_only_sender / C05_moves_need_authorization / move_debit_guard: no DeliverTx outcome lowers the balance of an account other than its sender, and moves happen only after the signature policy (single signature or distinct multisig owners reaching the threshold) passed. Monitors on the node: every balance/stake/waitlist decrease during a DeliverTx must belong to the sender (or the check issuer for RedeemCheck).",
  'C08': "Lean theorems: the tree-write sequence of a module commit, commutative accumulations and the candidate ranking are invariant under any permutation of the map iteration (C08_commit_perm_invariant, C08_accumulate_perm_invariant, C08_rank_perm_invariant, for all inputs); regenerated obligation C08_range_sites_safe: every range-over-map loop found in the CURRENT source of the state-mutating packages (go/types extractor, rerun whenever the tree changes) matches an order-insensitive pattern or a reviewed site; C08_commit_call_order pins the persistence call order of Blockchain.Commit. Tie/search: the same generated history executed by three separate processes (GOMAXPROCS 1/4/16, GOGC 10/100/off; Go reseeds map iteration per process), all responses, tags and app hashes compared line by line. Partial: goroutine scheduling and IAVL/goleveldb internals are exercised, not modelled.",
- 'C13': "Lean theorems about the pool kernels (the definitions the driver executes against the real PairV2 functions): buyForSell_K / sellForBuy_K (every quoted trade leaves the fee-adjusted and the plain reserve product no smaller, output strictly inside the reserve), checkSwap_sound, burn_le_share, mint_then_burn_le, startingSupply_sq; for all reserves and amounts. Tie: kernel correspondence (real CalculateBuyForSell/SellForBuy/CheckSwap/CalculateAddLiquidity/Amounts/startingSupply/commission roundings vs the Lean definitions on generated inputs incl. boundary shapes) + node-level orders campaign with the conservation monitors. Trades that cross limit orders are bound by the node-level monitors until the order-matching model lands (stated partial).",
+ 'C13': "Lean theorems about the pool kernels (the definitions the driver executes against the real PairV2 functions): buyForSell_K / sellForBuy_K (every quoted trade leaves the fee-adjusted and the plain reserve product no smaller, output strictly inside the reserve), checkSwap_sound, burn_le_share, mint_then_burn_le, startingSupply_sq; for all reserves and amounts. Trades that cross limit orders (order-book model MinterModel/Orders.lean): consuming an order adds its two commissions to the reserves, a curve step accepted by checkSwap keeps the output inside the reserve and the product no smaller, what SellWithOrders / BuyWithOrders write is the closed form r0' = r0 + input - sum(fills.buy), r1' = r1 - output + sum(fills.sell), and every successful trade - any book with positive volumes, any number of full and partial fills, any oracle answers - leaves 0 < r0', 0 < r1', r0*r1 <= r0'*r1' and a positive amount (orderStep_K, curveStep_K, settle_ok, sellLoop_K, buyLoop_K, sellWithOrders_K, buyWithOrders_K). Tie: kernel correspondence (real CalculateBuyForSell/SellForBuy/CheckSwap/CalculateAddLiquidity/Amounts/startingSupply/commission roundings vs the Lean definitions on generated inputs incl. boundary shapes) + mode orders (the real PairSellWithOrders / PairBuyWithOrders on generated books vs the Lean walk, with the monitors 'product of reserves decreased' / 'pool paid out more than it holds') + node-level orders campaign with the conservation monitors.",
 }
 NOTES = {
  'C08': 'Partial by nature: scheduling and storage-library internals are outside the model; the syntactic loop classifier and the reviewed-site list are trusted.',
- 'C13': 'Partial: order-crossing trades are not yet inside the Lean model.',
+ 'C13': 'The price-level oracle of a curve step towards an order (CalculateAddAmountsForPrice) is not modelled: the order theorems hold for every answer; the float sort key is differential-tested.',
 }
 for _p, _t in CLAIMS.items():
     PROPS[_p]['claim'] = _t
